@@ -933,7 +933,7 @@ fn c05_check(cfg: &Cfg, rep: &mut Report, case_seed: u64, case: &SmallCase, rand
                 Err(Caught::Repeat(k)) => {
                     rep.violation(
                         &format!("nogood-model-reached-again:{}", heu_class(hname)),
-                        format!("{} {:?} {}: the search reached a two-valued model for the {}th time, the framework has {}", hname, mode, b.name(), k, want_two.len()),
+                        format!("{} {:?} {}: the search arrived at a two-valued fixpoint for the {}th time, the framework has only {} two-valued models (one was reached again, or a non-model was taken for one)", hname, mode, b.name(), k, want_two.len()),
                         replay_of(cfg, case_seed, case, detail),
                     );
                 }
